@@ -25,11 +25,16 @@ type Conn struct {
 }
 
 func newServer(s *Swarm, netConn net.Conn) (*Conn, error) {
-	var pubKey ssh.PublicKey
+	// The callback is also invoked for keys the client only asks about, and is not invoked again for a
+	// key whose answer the library has cached, so "the key of the last invocation" is not the key that
+	// authenticated.  Bind each key to the Permissions returned for it: the library hands back the
+	// Permissions of the key whose signature it verified.
+	const pubKeyExtension = "sshswarm-pubkey"
 	config := &ssh.ServerConfig{
 		PublicKeyCallback: func(md ssh.ConnMetadata, pk ssh.PublicKey) (*ssh.Permissions, error) {
-			pubKey = pk
-			return &ssh.Permissions{}, nil
+			return &ssh.Permissions{
+				Extensions: map[string]string{pubKeyExtension: string(pk.Marshal())},
+			}, nil
 		},
 	}
 	config.AddHostKey(s.signer)
@@ -38,8 +43,14 @@ func newServer(s *Swarm, netConn net.Conn) (*Conn, error) {
 	if err != nil {
 		return nil, err
 	}
-	if pubKey == nil {
+	if sconn.Permissions == nil || sconn.Permissions.Extensions[pubKeyExtension] == "" {
+		sconn.Close()
 		return nil, errors.New("pubkey not set after connection")
+	}
+	pubKey, err := ssh.ParsePublicKey([]byte(sconn.Permissions.Extensions[pubKeyExtension]))
+	if err != nil {
+		sconn.Close()
+		return nil, err
 	}
 
 	raddr := sconn.RemoteAddr().(*net.TCPAddr)
